@@ -176,6 +176,48 @@ def _reoriented(sx, pts, perm, observer, ceiling, free, tag):
     return loft.point_array
 
 
+CREASED = [(3, -2, 1), (5, -2, 1), (5, 0, 1), (3, 0, 1), (3, -2, 3), (5, -1, 3), (5, 0, 2), (3, 0, 3)]
+
+
+def run_reorient_creased(sx, other):
+    """a convex block with creased (non-planar) sides seen from an off-axis viewpoint: the two hull triangles of one side have
+    clearly different normals. Ground twin only (real qhull decides the diagonals of the creased sides)."""
+    pts = [sx.arr(list(p)) for p in CREASED]
+    centre = sum(pts[1:], pts[0]) / 8
+    observer = centre + sx.vec(0.15, -1, -0.3) * 10
+    ceiling = centre + sx.vec(0.1, 0.2, 1) * 10
+    try:
+        A = _reoriented(sx, pts, numbering(0), observer, ceiling, [], "a")
+        Bp = _reoriented(sx, pts, numbering(other), observer, ceiling, [], "b")
+    except Exception as e:
+        sx.reach("reorient")
+        sx.prove(False, f"re-orienting a convex creased block (numbering {other}) succeeds", "C18:reorient:creased:fails",
+                 info={"error": f"{type(e).__name__}: {e}"[:120]})
+        return "failed"
+    sx.reach("reorient")
+    tag = f"creased block, numbering {other}"
+    sx.prove(sx.all([sx.any([sx.all([sx.close(x, y, 1e-9) for x, y in zip(p, a)]) for a in A]) for p in pts]),
+             f"{tag}: the same eight points", "C18:reorient:creased:points")
+    e1, e2, e3 = A[1] - A[0], A[3] - A[0], A[4] - A[0]
+    cr = [e1[1] * e2[2] - e1[2] * e2[1], e1[2] * e2[0] - e1[0] * e2[2], e1[0] * e2[1] - e1[1] * e2[0]]
+    sx.prove(cr[0] * e3[0] + cr[1] * e3[1] + cr[2] * e3[2] > 0, f"{tag}: right-handed", "C18:reorient:creased:right-handed")
+    cA = sum(A[1:], A[0]) / 8
+
+    def towards(idx, target):
+        fc = (A[idx[0]] + A[idx[1]] + A[idx[2]] + A[idx[3]]) / 4
+        out, to = fc - cA, target - cA
+        return out[0] * to[0] + out[1] * to[1] + out[2] * to[2]
+    lat = {"front": (0, 1, 5, 4), "back": (3, 2, 6, 7), "left": (0, 3, 7, 4), "right": (1, 2, 6, 5)}
+    f_ = {k: towards(v, observer) for k, v in lat.items()}
+    sx.prove(sx.all([f_["front"] > 0] + [f_["front"] >= f_[k] for k in ("back", "left", "right")]),
+             f"{tag}: the front side faces the observer", "C18:reorient:creased:front")
+    sx.prove(towards((4, 5, 6, 7), ceiling) > towards((0, 1, 2, 3), ceiling), f"{tag}: the top side faces the ceiling point",
+             "C18:reorient:creased:top")
+    sx.prove(sx.all([sx.close(x, y, 1e-9) for a, b in zip(A, Bp) for x, y in zip(a, b)]),
+             f"{tag}: the result does not depend on the initial numbering", "C18:reorient:creased:numbering-independent")
+    return "reorient"
+
+
 def run_reorient_reuse(sx, other, free):
     """one ViewpointReorienter applied to several blocks in turn (as in the library's own chaining examples): every block
     is oriented by where IT is relative to the observer, not by where an earlier block was. Concrete geometry (what is
@@ -311,6 +353,9 @@ def jobs(tier, seed):
         js.append({"name": f"reorient|identity vs {o}|dirs {k % 3}", "fn": "run_reorient",
                    "params": {"other": o, "free": [0, 3] if tier == "quick" else [0, 1, 2, 3, 4, 5], "dirs": k % 3,
                               "symbolic_dirs": tier == "thorough" and k % 8 == 0, "symbolic_dist": k % 2 == 1}})
+    for o in ((3, 14, 22, 31, 45) if tier == "quick" else tuple(range(1, 48, 3))):
+        js.append({"name": f"reorient|creased block|numbering {o}|ground twin only", "fn": "run_reorient_creased",
+                   "params": {"other": o}, "symbolic": False})
     for o in ((0, 17) if tier == "quick" else (0, 5, 17, 29, 40)):
         js.append({"name": f"reorient|one reorienter, three blocks|numbering {o}", "fn": "run_reorient_reuse",
                    "params": {"other": o, "free": [0, 3]}})
